@@ -292,6 +292,209 @@ def run(ctx):
     else:
         r5.bad('error-ctor', 'no ParseError construction found')
 
+    # ------------------------------------------------------------------ R6
+    r6 = ctx.rule('C12.R6', 'lexer tiling: on every path of Lexer::next the emitted token ranges chain from the start of the first consumed logos span to the end of the last one', floor=4, floor_what='paths through Lexer::next')
+    ln = [k for k in fx.fns if re.search(r'trust_syntax::lexer::Lexer<.*> as core::iter::traits::iterator::Iterator>::next$', k)]
+    if not ln:
+        r6.bad('anchor-missing|Lexer::next', 'Lexer::next not found')
+    else:
+        _lexer_tiling(fx, ln[0], r6)
+
+    # ------------------------------------------------------------------ R7
+    r7 = ctx.rule('C12.R7', 'trivia transparency: the token-stream look-ahead skips a trivia token unconditionally (no exit, no call, no state other than the cursor depends on it)', floor=5, floor_what='trivia tests in parser::source')
+    for k in sorted(fx.fns):
+        if not re.search(r'trust_syntax::parser::source::Source::<.*>::\w+$', k):
+            continue
+        fn = F(fx.fns[k])
+        short = k.split('::')[-1]
+        named = {}
+        for nm, pl in fn.r['names']:
+            if not pl[1]:
+                named[pl[0]] = nm
+        sccs = [set(c) for c in fn.sccs() if len(c) > 1]
+        for b, nm, t in fn.calls(lambda n: n.endswith('lexer::tokens::TokenKind::is_trivia')):
+            r7.saw()
+            key = 'skip|%s' % short
+            comp = next((c for c in sccs if b in c), None)
+            pos, neg, _ = test_edges(fn, {t['d'][0]: ('bool', True)}) if not t['d'][1] else (set(), set(), [])
+            if comp is None or not pos:
+                r7.bad(key, '%s tests is_trivia outside a skipping loop: shape not recognised' % short, loc=fn.loc(b))
+                continue
+            heads = {x for x in comp if any(p not in comp for p in fn.preds.get(x, []))}
+            region = fn.reach([x for (_, x) in pos], avoid=heads) - heads
+            probs = []
+            for rb in sorted(region):
+                tt = fn.term(rb)
+                if tt['k'] == 'ret' or rb not in comp:
+                    probs.append('leaves the loop (line %d)' % fn.line(rb))
+                    break
+                if tt['k'] == 'call':
+                    probs.append('calls %s' % (fn.call_name(rb) or '?').split('::')[-1])
+                for st in fn.bbs[rb]['s']:
+                    if st[0] != 'A':
+                        continue
+                    base, proj = st[1][0], st[1][1]
+                    if proj:
+                        fs = place_fields(st[1])
+                        if fs and not fs[-1].endswith('Source.cursor'):
+                            probs.append('writes %s' % fs[-1])
+                    elif base in named and named[base] != 'cursor':
+                        probs.append('assigns `%s`' % named[base])
+            if probs:
+                r7.bad(key, 'in %s the branch taken for a trivia token %s: the look-ahead result then depends on the whitespace/comments between tokens, so inserting trivia between two tokens changes the parse' % (short, '; '.join(sorted(set(probs))[:3])), loc=fn.loc(b))
+            else:
+                r7.ok(key, loc=fn.loc(b))
+
+
+def _lexer_tiling(fx, fid, r6):
+    rec = fx.fns[fid]
+    fn = F(rec)
+    if any(len(c) > 1 for c in fn.sccs()):
+        r6.bad('shape', 'Lexer::next contains a loop: the path enumeration of the tiling rule does not apply (rule needs review)', loc=fn.loc(0))
+        return
+
+    def single(l):
+        dl = fn.defs.get(l, [])
+        return dl[0] if len(dl) == 1 else None
+
+    def sym(o, depth=0):
+        """symbolic value of a position operand"""
+        if depth > 12 or o[0] not in ('c', 'm'):
+            return ('?',)
+        base, proj = o[1][0], o[1][1]
+        fs = place_fields(o[1])
+        d = single(base)
+        if d is None:
+            return ('?',)
+        b, k, pl = d
+        if fs and fs[-1].rsplit('.', 1)[-1] in ('start', 'end') and k == 'C' and (fn.call_name(b) or '').endswith('::span'):
+            return ('span', b, fs[-1].rsplit('.', 1)[-1])
+        if proj and proj[-1] in ([['f', '0']],) :
+            pass
+        if k == 'A':
+            rv = pl
+            if rv[0] == 'use':
+                inner = rv[1]
+                if inner[0] in ('c', 'm') and proj and not inner[1][1]:
+                    # `move _51.0`: field 0 of an overflow pair
+                    return sym(['c', [inner[1][0], proj]], depth + 1)
+                return sym(inner, depth + 1) if not proj else sym(['c', [inner[1][0], inner[1][1] + proj]], depth + 1) if inner[0] in ('c', 'm') else ('?',)
+            if rv[0] == 'cast':
+                return sym(rv[2], depth + 1)
+            if rv[0] == 'bin' and rv[1] in ('Sub', 'SubWithOverflow') and rv[3][0] == 'k' and re.match(r'1(_usize)?$', rv[3][2].strip()):
+                return ('sub1', sym(rv[2], depth + 1))
+            return ('?',)
+        if k == 'C':
+            nm = fn.call_name(b) or ''
+            if re.search(r'TextSize as core::convert::From<u32>>::from$|::into$', nm):
+                return sym(pl['a'][0], depth + 1)
+        return ('?',)
+
+    def token_range(t):
+        """(start_sym, end_sym) of a Token::new call"""
+        ro = t['a'][1]
+        if ro[0] not in ('c', 'm'):
+            return None
+        l = ro[1][0]
+        for _ in range(6):
+            d = single(l)
+            if d is None:
+                return None
+            b, k, pl = d
+            if k == 'C' and (fn.call_name(b) or '').endswith('text_size::range::TextRange::new'):
+                return sym(pl['a'][0]), sym(pl['a'][1])
+            if k == 'A' and pl[0] == 'use' and pl[1][0] in ('c', 'm'):
+                l = pl[1][1][0]
+                continue
+            return None
+        return None
+
+    is_next = lambda n: re.search(r'logos::lexer::Lexer<.*> as core::iter::traits::iterator::Iterator>::next$', n) is not None
+    paths = []
+    stack = [(0, [])]
+    limit = 20000
+    while stack and limit > 0:
+        limit -= 1
+        b, ev = stack.pop()
+        t = fn.term(b)
+        ev2 = ev
+        if t['k'] == 'call':
+            nm = fn.call_name(b) or ''
+            if is_next(nm):
+                ev2 = ev + [('next', b)]
+            elif nm.endswith('logos::lexer::Lexer::<\'source, Token>::span') or nm.endswith('::span'):
+                ev2 = ev + [('span', b)]
+            elif nm.endswith('trust_syntax::lexer::Token::new'):
+                ev2 = ev + [('emit', b, token_range(t))]
+        succ = list(fn.g.get(b, ()))
+        if t['k'] == 'ret' or not succ:
+            if t['k'] == 'ret':
+                paths.append(ev2)
+            continue
+        for x in succ:
+            stack.append((x, ev2))
+    if limit <= 0:
+        r6.bad('shape', 'too many paths through Lexer::next for the tiling rule', loc=fn.loc(0))
+        return
+    seen = set()
+    for ev in paths:
+        spans = [e[1] for e in ev if e[0] == 'span']
+        emits = [e for e in ev if e[0] == 'emit']
+        sig = (tuple(spans), tuple(e[1] for e in emits))
+        if sig in seen:
+            continue
+        seen.add(sig)
+        if not spans and not emits:
+            continue
+        r6.saw()
+        key = 'path|%s' % '-'.join(_emit_kind(fn, e[1]) for e in emits) if emits else 'path|no-token'
+        if not spans:
+            r6.bad(key, 'a token is emitted although no input was consumed', loc=fn.loc(emits[0][1]))
+            continue
+        if not emits:
+            r6.bad(key, 'a logos token was consumed (line %d) and no token is emitted on this path: its bytes belong to no token' % fn.line(spans[0]), loc=fn.loc(spans[0]))
+            continue
+        if any(e[2] is None or ('?',) in e[2] or (e[2][0][0] == 'sub1' and ('?',) in e[2][0]) for e in emits):
+            r6.bad(key, 'a token range on this path is not built from the consumed spans (rule cannot follow it)', loc=fn.loc(emits[0][1]))
+            continue
+        want_start = ('span', spans[0], 'start')
+        want_end = ('span', spans[-1], 'end')
+        okp = emits[0][2][0] == want_start and emits[-1][2][1] == want_end
+        gap = None
+        if emits[0][2][0] != want_start:
+            gap = 'the first token does not start at the start of the consumed span'
+        elif emits[-1][2][1] != want_end:
+            gap = 'the last token ends at %s, before the end of the consumed input (line %d): the remaining bytes belong to no token' % (_symtxt(fn, emits[-1][2][1]), fn.line(spans[-1]))
+        for a, bq in zip(emits, emits[1:]):
+            e_end, n_start = a[2][1], bq[2][0]
+            if e_end == n_start:
+                continue
+            # logos spans are contiguous: end of span j == start of span j+1
+            if e_end[0] == 'span' and n_start[0] == 'span' and e_end[2] == 'end' and n_start[2] == 'start' and e_end[1] in spans and n_start[1] in spans and spans.index(n_start[1]) == spans.index(e_end[1]) + 1:
+                continue
+            okp = False
+            gap = 'consecutive tokens do not meet: one ends at %s, the next starts at %s' % (_symtxt(fn, e_end), _symtxt(fn, n_start))
+        if okp and gap is None:
+            r6.ok(key, loc=fn.loc(emits[0][1]))
+        else:
+            r6.bad(key, 'token ranges do not tile the consumed input on a path of Lexer::next: %s (token texts would no longer concatenate to the input)' % gap, loc=fn.loc(emits[-1][1]))
+
+
+def _emit_kind(fn, b):
+    o = fn.term(b)['a'][0]
+    for x in operand_origins(fn, o):
+        if x[0] == 'agg' and 'TokenKind::' in x[1]:
+            return x[1].split('::')[-1]
+    return 'tok'
+
+
+def _symtxt(fn, s):
+    if s[0] == 'span':
+        return 'span(line %d).%s' % (fn.line(s[1]), s[2])
+    if s[0] == 'sub1':
+        return '%s - 1' % _symtxt(fn, s[1])
+    return '?'
+
 
 def _depth_field_guard(fx, fid, cycle):
     """fid compares Parser.expr_depth (or another Parser depth field) with a bound and every call back into the cycle is behind the within-bound edge"""
